@@ -46,6 +46,16 @@ func runC14(c *core.Ctx) {
 	// messages (rules shared with C13)
 	c.Doc("C13.select", "change events go to every subscriber of the property and only to them", 2)
 	ruleUpdateSignalSelects(c)
+	// exactly one event per accepted write: registrations are balanced and the table the
+	// emission walks is a private snapshot (rules shared with C13)
+	c.Doc("C13.refcount", "remote register on 0→1 and unregister on 1→0 of the local count, with the id kept in the shared client state", 3)
+	ruleRefcount(c)
+	{
+		lc13 := core.NewLockCache()
+		c.Doc("C13.table", "the registration table is read and written under its mutex and not used after the lock is released", 8)
+		guardedBy(c, lc13, newEntryLocks(c, lc13), "C13.table", guardedField{Rel: "bus", Struct: "signalHandler", Field: "signals", Mutex: "signalsMutex",
+			Reason: "registrations are added/removed by the mailbox goroutine, by disconnect closers and read by emitters"})
+	}
 	if a := getEP(c, "C14.anchors"); a != nil {
 		c.Doc("C13.forwarding", "subscribers are forwarded Event messages only, in order, channel closed once", 6)
 		ruleForwarders(c, a)
